@@ -63,6 +63,8 @@ class CtlWorld:
             w.gates[("w", k)] = f
             try:
                 await f
+                if k in scen.get("fail", ()):
+                    raise RuntimeError(f"worker-{k}-failed")
             finally:
                 w.gates.pop(("w", k), None)
                 w.live -= 1
@@ -129,7 +131,7 @@ class CtlWorld:
             # the pool counts as closed as soon as any session's gather-and-close has been answered
             for j, wbytes in enumerate(writes):
                 k = self.answered[i] + j
-                if k < self.sent[i] and self.scen["sessions"][i][k].startswith("gather-and-close") and wbytes == b"ok\n":
+                if k < self.sent[i] and self.scen["sessions"][i][k].startswith("gather-and-close") and wbytes == b"ok\n":  # noqa: E501
                     self.closed = True
         for i, s in enumerate(self.sessions):
             if s.died():
@@ -148,13 +150,15 @@ class CtlWorld:
                         self.v("reply differs from the reply of the same line in a single-session run "
                                "(foreign/stale output in the reply)", i, line, txt[:200], self.ref[line][0][:200] if self.ref[line] else None)
                 elif line.startswith("gather-and-close"):
-                    if txt != b"ok\n":
+                    if txt != b"ok\n" and not (self.scen.get("fail") and b"failed" in txt):
                         self.v("gather-and-close reply", i, txt[:100])
-                    if self.live or self.cb_open:
-                        self.v("gather-and-close answered before its wait was over", i, self.live, self.cb_open)
-                    self.closed = True
+                    if txt == b"ok\n":
+                        if self.live or self.cb_open:
+                            self.v("gather-and-close answered before its wait was over", i, self.live, self.cb_open)
+                        self.closed = True
+                    # (a reply carrying a task's exception: the method's wait ended by raising; the pool is not closed)
                 elif line.startswith("flush"):
-                    if txt != b"ok\n":
+                    if txt != b"ok\n" and not (self.scen.get("fail") and b"failed" in txt):
                         self.v("flush reply", i, txt[:100])
                     pre = self.precond.get((i, k), ())
                     still = [g for g in pre if g in self.gates]
